@@ -8,12 +8,16 @@ defects and seeded changes still surface.
                                   no automorphism fixing the atom exchanges them, `_smiles` breaks the tie by insertion order.
   partially-labelled-twin         a labelled stereo element whose constitutionally equivalent twin is unlabelled (one of two equivalent centres /
                                   double bonds specified): the stereo-aware refinement only separates elements that are both labelled.
+  odd-stereo-group                an odd number (>= 3) of labelled, constitutionally equivalent stereo elements (one orbit of the stereo-free graph)
+                                  that are not all equivalent including configuration (R,S,R in three equal arms or components): `__differentiation`
+                                  only looks at groups of even size, the odd group is never split and insertion order breaks the tie.
   morgan-incomplete               colour refinement (what Morgan refinement computes) leaves atoms of different automorphism orbits in one class
                                   (dispiro[2.2.2.2]decane: cyclopropane and cyclohexane CH2): ties between non-automorphic atoms.
-  symmetric-spiro                 a spiro atom (cut vertex shared by two ring blocks, two neighbours in each) with a neighbour in each ring lying in one
-                                  orbit and equally far from the start atom of the canonical string: class, class size and breadth-first distance tie
-                                  although own-ring / other-ring are not equivalent once the traversal has entered a ring.
-  thiele-sssr-choice              a six-membered ring with alternating double bonds (Kekule form) and a second ring of the same size whose symmetric
+  symmetric-spiro                 a spiro atom (cut vertex shared by two ring blocks, two neighbours in each) that the canonical traversal reaches while
+                                  its second neighbour in the ring it comes from is still unwritten, and that neighbour and a neighbour in the other ring
+                                  lie in one orbit and are equally far from the start atom of the canonical string: class, class size and breadth-first
+                                  distance tie although own-ring / other-ring are not equivalent once the traversal has entered a ring.
+  thiele-sssr-choice              a chordless six-membered ring with alternating double bonds (Kekule form) and a second ring of the same size whose symmetric
                                   difference with it is one smaller ring: only one of the two enters the SSSR, `thiele()` aromatises or not.
   diene-ring-closure-direction    two labelled, conjugated cis/trans double bonds (C=C-C=C) that lie in one ring: when one of them is written as the
                                   ring-closure bond the writer emits a wrong direction mark.
@@ -47,23 +51,54 @@ def alternating_ring_tie(m, orb=None):
     return False
 
 
-def symmetric_spiro(m, orb=None, start=None):
+def symmetric_spiro(m, orb=None, start=None, order=None):
     """a spiro atom x (cut vertex of two ring blocks, two neighbours in each) with a neighbour y in one ring and z in the other that lie
     in one orbit AND are equally far (true graph distance) from the atom the canonical string starts with: class, class size and the
     breadth-first distance from the start - everything `_smiles` sorts by - tie although own-ring / other-ring are not equivalent.
-    `start` is the only observation taken from the library (first written atom of the reference string; None = any start ties)."""
+    `start` (first written atom of the reference string; None = any start ties) or, tighter, `order` (the atom order of the reference
+    string) is the only observation taken from the library.  With `order` the tie only counts where it is met: x is written after exactly
+    one of its four ring neighbours (the traversal arrives through ring A) and the tie is between the still unwritten neighbour y of
+    ring A and a neighbour z of ring B (after a trip round ring A both of its neighbours are written and only the two equivalent
+    neighbours of ring B are left), and the atom written right after x is one of the tied ones; distances are taken from the first
+    written atom of x's component."""
     g = _graph(m)
     blocks = [set(c) for c in nx.biconnected_components(g) if len(c) >= 3]
     if len(blocks) < 2:
         return False
     orb = orb or iso.orbits(m)
-    dist = nx.single_source_shortest_path_length(g, start) if start is not None else None
+    if order is not None:
+        pos = {n: i for i, n in enumerate(order)}
+        comp_start = {}
+        for c in nx.connected_components(g):
+            s0 = min(c, key=pos.__getitem__)
+            for n in c:
+                comp_start[n] = s0
+        dists = {}
+    else:
+        dist = nx.single_source_shortest_path_length(g, start) if start is not None else None
     for x in nx.articulation_points(g):
         mine = [b for b in blocks if x in b]
         for b1, b2 in itertools.combinations(mine, 2):
             n1 = [y for y in g[x] if y in b1]
             n2 = [y for y in g[x] if y in b2]
             if len(n1) != 2 or len(n2) != 2:
+                continue
+            if order is not None:
+                s0 = comp_start[x]
+                if s0 not in dists:
+                    dists[s0] = nx.single_source_shortest_path_length(g, s0)
+                dist = dists[s0]
+                before = [y for y in n1 + n2 if pos[y] < pos[x]]
+                if len(before) != 1:
+                    continue
+                own, other = (n1, n2) if before[0] in n1 else (n2, n1)
+                y = next(v for v in own if v != before[0])
+                tie = [z for z in other if orb[y] == orb[z] and dist[y] == dist[z]]
+                # ... and the tie is the one that decides: the atom written right after x (first branch taken) is one of the tied atoms;
+                # when a neighbour of another class sorts first, ring B is finished before y / z are looked at and their order is immaterial
+                nxt = order[pos[x] + 1] if pos[x] + 1 < len(order) else None
+                if tie and nxt in [y] + tie:
+                    return True
                 continue
             for y in n1:
                 for z in n2:
@@ -134,6 +169,8 @@ def thiele_sssr_choice(m):
             atoms = {v for e in c for v in e}
             if any(sum(order[e] == 2 for e in c if v in e) != 1 for v in atoms):
                 continue  # not an alternating ring
+            if any(frozenset((a, b)) not in c for a, b in h.subgraph(atoms).edges):
+                continue  # a ring with a chord is the sum of two shorter rings: in no minimum cycle basis, never looked at by thiele()
             for c2 in six:
                 if c2 != c and len(c ^ c2) < 6 and _single_cycle(c ^ c2):
                     return True
@@ -213,6 +250,41 @@ def partially_labelled_twin(m, orb=None):
     return any(True in v and False in v for v in bo.values())
 
 
+def odd_stereo_group(m, orb=None, limit=20000):
+    """an orbit (stereo-free graph) holding an odd number >= 3 of labelled stereo elements (atoms: tetrahedral / allene centres; double
+    bonds: by the orbits of their two atoms) that are not all images of each other under the configuration-keeping automorphisms
+    (oracles/o01_stereo.py): `__differentiation` skips groups of odd size"""
+    orb = orb or iso.orbits(m)
+    ga, gb = {}, {}
+    for n, a in m.atoms():
+        if a.stereo is not None:
+            ga.setdefault(orb[n], []).append(n)
+    for a, b, bd in m.bonds():
+        if bd.stereo is not None:
+            gb.setdefault(frozenset((orb[a], orb[b])), []).append(frozenset((a, b)))
+    ca = [v for v in ga.values() if len(v) >= 3 and len(v) % 2]
+    cb = [v for v in gb.values() if len(v) >= 3 and len(v) % 2]
+    if not ca and not cb:
+        return False
+    from oracles.o01_stereo import labels, _same_config
+    lab = labels(m)
+    if lab[3]:
+        return False
+    view = iso.graph_view(m, True)
+    autos = []
+    for f in iso.isomorphisms(view, view, limit=limit):
+        if _same_config(m, m, f, lab):
+            autos.append(f)
+    for grp in ca:
+        if not set(grp) <= {f[grp[0]] for f in autos}:
+            return True
+    for grp in cb:
+        a, b = tuple(grp[0])
+        if not set(grp) <= {frozenset((f[a], f[b])) for f in autos}:
+            return True
+    return False
+
+
 def c01_family(m, relations):
     """family name for a failing C01 input (m normalised, relations = set of relations that failed) or None"""
     if thiele_sssr_choice(m):
@@ -222,13 +294,15 @@ def c01_family(m, relations):
         return 'alternating-ring-tie'
     if partially_labelled_twin(m, orb):
         return 'partially-labelled-twin'
+    if odd_stereo_group(m, orb):
+        return 'odd-stereo-group'
     if morgan_incomplete(m, orb):
         return 'morgan-incomplete'
     try:
-        start = m.smiles_atoms_order[0]
+        order = tuple(m.smiles_atoms_order)
     except Exception:
-        start = None
-    if symmetric_spiro(m, orb, start):
+        order = None
+    if order is not None and set(order) == set(m._atoms) and symmetric_spiro(m, orb, order=order):
         return 'symmetric-spiro'
     if set(relations) <= {'respell-chython'} and diene_ring_closure_direction(m):
         return 'diene-ring-closure-direction'  # a fault of the writer: only its own spellings are affected
@@ -253,6 +327,7 @@ def c02_family(m, differences):
 ANCHORS = {
     'alternating-ring-tie': ('C1=CC=C1', 'C1=CC=CC=CC=C1'),
     'partially-labelled-twin': ('C[C@H](Cl)C(C)Cl', 'F/C=C/C=CF', 'C[C@H]1CC(C)CNC1'),
+    'odd-stereo-group': ('C[C@H](F)Cl.C[C@@H](F)Cl.C[C@H](F)Cl', 'N(C[C@H](F)Cl)(C[C@@H](F)Cl)C[C@H](F)Cl', 'B(/C=C/F)(/C=C\\F)/C=C/F'),
     'morgan-incomplete': ('C1CC12CCC1(CC2)CC1',),
     'symmetric-spiro': ('N1CCC2(CC1)CCNCC2', 'C1CC[Si]2(CC1)CCCCC2', 'C1CCCCCCC12CCCCCCC2'),
     'thiele-sssr-choice': ('C1=C2C=CC=C1C2',),
